@@ -26,7 +26,7 @@ theorem allNodes_exist (st : Store) : ∀ fuel work, ∀ id ∈ allNodes st fuel
 
 theorem validateDefaultsLoop_iff (env : VEnv) (fuel : Nat) : ∀ ids : List NodeId,
     validateDefaultsLoop env fuel ids = .ok () ↔
-      ∀ id ∈ ids, ∃ n, env.st.get? id = some n ∧ n.dynamicRef = "" ∧
+      ∀ id ∈ ids, ∃ n, env.st.get? id = some n ∧ (env.draft = .d2020 → n.dynamicRef = "") ∧
         ∀ d, n.default = some d → (validateFuel env fuel [] (GoVal.ofJson d) id).isOk = true := by
   intro ids
   induction ids with
@@ -42,7 +42,7 @@ theorem validateDefaultsLoop_iff (env : VEnv) (fuel : Nat) : ∀ ids : List Node
     | some n =>
       simp only [List.mem_cons, forall_eq_or_imp, hn, Option.some.injEq, exists_eq_left']
       by_cases hd : n.dynamicRef = ""
-      · simp only [hd, bne_self_eq_false, Bool.false_eq_true, if_false, true_and]
+      · simp only [hd, bne_self_eq_false, Bool.false_and, Bool.false_eq_true, if_false, implies_true, true_and]
         cases hdef : n.default with
         | none => simp [ih]
         | some d =>
@@ -53,10 +53,25 @@ theorem validateDefaultsLoop_iff (env : VEnv) (fuel : Nat) : ∀ ids : List Node
           | panic => simp [Res.isOk]
           | fuel => simp [Res.isOk]
       · have : (n.dynamicRef != "") = true := by simpa using hd
-        simp only [this, if_true]
-        constructor
-        · intro h; cases h
-        · rintro ⟨⟨h, _⟩, _⟩; exact absurd h hd
+        cases hdr : env.draft with
+        | d2020 =>
+          simp only [this, Bool.true_and, show (Draft.d2020 == Draft.d2020) = true from rfl, if_true]
+          constructor
+          · intro h; cases h
+          · rintro ⟨⟨h, _⟩, _⟩; exact absurd (h trivial) hd
+        | d7 =>
+          -- draft-07: the keyword is not looked at
+          simp only [this, Bool.true_and, show (Draft.d7 == Draft.d2020) = false from rfl, Bool.false_eq_true, if_false,
+            reduceCtorEq, false_implies, true_and]
+          cases hdef : n.default with
+          | none => simp [ih, hdr]
+          | some d =>
+            simp only [Option.some.injEq, forall_eq']
+            cases hv : validateFuel env fuel [] (GoVal.ofJson d) id with
+            | ok a => simp [Res.isOk, ih, hdr]
+            | err => simp [Res.isOk]
+            | panic => simp [Res.isOk]
+            | fuel => simp [Res.isOk]
 
 end C15
 end JSV
